@@ -40,9 +40,9 @@ func runC16(w *World) *Result {
 	r.Rule("R-C16-helpers", "helper routines: invocation implies flag set; (Batch) flag set implies an invocation is emitted", 10)
 	r.Rule("R-C16-nop", "the no-op emits one command line in both back ends; only expressions whose handler always emits a line may stand as a statement", 6)
 	r.Rule("R-C16-jumps", "Batch loop/branch jumps use the labels their opener pushed (never a label recomputed from a moving counter)", 6)
-	r.Rule("R-C16-driver", "the driver calls the bracket methods of if / for / func / program in matched order on every success path (an opener or header skipped leaves a closer without its opening line)", 5)
+	r.Rule("R-C16-driver", "the driver calls the bracket methods of if / for / func / program in matched order on every success path (an opener or header skipped leaves a closer without its opening line)", 2)
 	BracketProtoRule(w, r, "R-C16-driver")
-	r.Rule("R-C16-data", "Bash: string data cannot change the lexical structure the syntax check sees: every string hole sits inside double quotes that the data cannot close (quote characters of literals are neutralised, quoting does not depend on the data)", 20)
+	r.Rule("R-C16-data", "Bash: string data cannot change the lexical structure the syntax check sees: every string hole sits inside double quotes that the data cannot close (quote characters of literals are neutralised, quoting does not depend on the data)", 8)
 	r.Rule("R-C16-defined", "every function a script can call is defined in it: call edges are recorded at the construction of call nodes, merged completely across imports, and removal follows their closure", 5)
 	c09Edge(w, r, "R-C16-defined")
 	c09Merge(w, r, "R-C16-defined")
